@@ -86,7 +86,8 @@ import Cx.Model.Pike
     * prefilters (`findWithPrefilterAt`, start-state skip-ahead, `earliestPreSkip`): `Builder.buildPrefilter`
       returns nil, so a DFA built by `CompileWithConfig` has none;
     * the second result of `SearchAtAnchoredStopAt` (where the scan stopped), `searchFirstAt`,
-      `searchEarliestMatchAnchored` (not called by `meta`), reverse searches, SIMD, statistics;
+      `searchEarliestMatchAnchored` (not called by `meta`), SIMD, statistics; the reverse searches
+      (`SearchReverse`, `SearchReverseLimited`, `IsMatchReverse`, `reverseWalk`) are in `Cx.Model.DfaRev`;
     * `nfa.InvalidState` successor ids (never pushed by the code; dumped NFAs do not contain them);
     * rune states are not byte transitions for the DFA (the code ignores them as well);
     * byte classes `≥ stride` (the real `ByteClasses` never produce them; the flat table would alias the next row).
